@@ -4,6 +4,7 @@
    the hash move (accepted by IsPseudoLegal: Proofs/PseudoApplicable.v) and the generated moves
    (hypothesis good_gen = the still open gen_applicable_statement). *)
 From Coq Require Import NArith ZArith List Bool Lia Permutation.
+From Chess3 Require Import Proofs.LayoutNow.
 From Chess3 Require Import Base.Bits Base.Word Model.Types Model.BoardDef Model.Board Model.Search
   Spec.Rep Spec.Applicable Proofs.Statements Proofs.PseudoApplicable Proofs.PickerProofs Proofs.SearchModelInv Proofs.SearchModelPicker.
 From Chess3 Require Model.Movegen Model.Mate Model.Eval Model.TT Model.Hist Model.Picker Model.See
@@ -81,14 +82,14 @@ Section Board.
   Proof.
     intros Hg Ha E. split.
     - pose proof (make_good b m Hg Ha) as H. now rewrite E in H.
-    - pose proof (C03_move_l zob b m (good_Rep b Hg) Ha) as H. now rewrite E in H.
+    - pose proof (C03_move_now_l zob b m (good_Rep b Hg) Ha) as H. now rewrite E in H.
   Qed.
 
   Lemma null_undo b b1 r : good b -> make_null zob b = (b1, r) -> good b1 /\ undo_null b1 r = b.
   Proof.
     intros Hg E. split.
     - pose proof (null_good b Hg) as H. now rewrite E in H.
-    - pose proof (C03_null_l zob b (good_Rep b Hg)) as H. now rewrite E in H.
+    - pose proof (C03_null_now_l zob b (good_Rep b Hg)) as H. now rewrite E in H.
   Qed.
 
   Lemma ranked_appl f b ms l : good b -> (forall m, In m ms -> In m (Movegen.gen_all b)) ->
